@@ -706,10 +706,9 @@ class Track:
     def close_segment(self):
         if not self.segs_open: return
         self.segs_open = False
-        # the only array an inversion may write in place: data_vector_mapper, by the w-tilde class with a function object
-        allowed = {"data_vector_mapper"} if (self.wt and self.has_f) else set()
+        # NO array held by the Preloads object may be written (since /repo 95fc1c6 the w-tilde class completes a copy of data_vector_mapper)
         for s, (v, fp) in self.seg["before"].items():
-            if fingerprint(v) != fp and s not in allowed and not self.why: self.why = f"preloaded {s} was modified in place"
+            if fingerprint(v) != fp and not self.why: self.why = f"preloaded {s} was modified in place"
         sg = self.seg
         if sg["h"] and not self.nocoq:
             self.segs.append(f"(KHist {qm(self.C)} {self.oracle} {self.cin} {sg['pre']} {clist([clist(qs) for qs in sg['h']])} "
@@ -829,7 +828,6 @@ def run_sets(inp):
         return ("L", [np.array(x, dtype=float) for x in v.values()]) if isinstance(v, dict) else ("M", np.array(v, dtype=float))
     for s, v in filled.items():
         if s == "w_tilde": continue
-        if s == "data_vector_mapper" and wt0 and has_f and inp["chain"]: continue      # may legitimately be the completed vector
         if not same(as_val(s, v), val_of(s)) and not why: why = f"{s} stored by the set_* methods is not the fresh value"
     fps = {s: fingerprint(v) for s, v in filled.items()}
     # fit_0's inversion goes on being used AFTER the preloads were set
@@ -838,11 +836,8 @@ def run_sets(inp):
     fresh_after0 = [observe(fresh0, q) for q in inp["reads0_after"]]
     bad = [q for q, a, b in zip(inp["reads0_after"], after0, fresh_after0) if not same(a, b)]
     if bad and not why: why = f"fit_0.inversion attributes read after set_*: {bad} differ from a fresh inversion"
-    # (a data_vector_mapper that fit_0's inversion itself had been given as a preload is the same array: the w-tilde class with a
-    #  function object completes it in place, which leaves it a valid preload -- C15_store_stays_consistent)
-    allowed0 = {"data_vector_mapper"} if (wt0 and has_f and "data_vector_mapper" in inp["chain"]) else set()
     for s, v in filled.items():
-        if fingerprint(v) != fps[s] and s not in allowed0 and not why: why = f"preloaded {s} changed when fit_0.inversion was read after set_*"
+        if fingerprint(v) != fps[s] and not why: why = f"preloaded {s} changed when fit_0.inversion was read after set_*"
     # the fresh values of the filled slots (specification side of the Coq case)
     fr = {}
     for s_ in filled:
@@ -855,7 +850,7 @@ def run_sets(inp):
         else:
             v = getattr(ref, s_); fr[s_] = dict(v) if isinstance(v, dict) else np.array(v, dtype=float)
     fresh_coq = "" if nocoq else cstore(aa.Preloads(**fr), npix)
-    dvm_loose = bool(wt0 and has_f and "data_vector_mapper" in inp["chain"])
+    dvm_loose = False     # (before /repo 95fc1c6 fit_0's own preloaded data_vector_mapper could already hold the function rows)
     CN = {"set_w_tilde_imaging": "SetWt", "set_operated_mapping_matrix_with_preloads": "SetOmm", "set_linear_func_inversion_dicts": "SetLf",
           "set_curvature_matrix": "SetCurv", "set_regularization_matrix_and_term": "SetReg"}
     rz = {i for i, _ in raised_idx}
@@ -886,7 +881,7 @@ def run_subsets(inp):
     names = list(vals)
     fresh_inv = make_inv(aa, ds, objs, settings(), inp)
     fresh = [observe(fresh_inv, q) for q in STD]
-    allowed = {"data_vector_mapper"} if (wt and has_f) else set()
+    allowed = set()       # no preloaded array may be modified (/repo 95fc1c6)
     bad = None; n = 0
     for r in range(len(names) + 1):
         for sub in itertools.combinations(names, r):
@@ -935,7 +930,7 @@ def run_grid(inp):
     names = list(vals)
     subs = [()] + [(s,) for s in names] + [pr for pr in GRID_PAIRS if all(x in vals for x in pr)]
     subs += [tuple(x for x in names if x != s) for s in names] + [tuple(names)]
-    allowed = {"data_vector_mapper"} if (wt and has_f) else set()
+    allowed = set()       # no preloaded array may be modified (/repo 95fc1c6)
     bad = None; n = 0
     def history(pre, mine, label, idx):
         nonlocal bad, n
